@@ -23,6 +23,8 @@ type Pkg struct {
 	IsMain  bool
 	Files   []*gen.File
 	Imports []int // indices into Project.Pkgs (library packages only)
+	// ExtraDirs: directories of hand-written leaf packages (ExtraOld/ExtraNew) that file 0 imports
+	ExtraDirs []string
 }
 
 type Project struct {
@@ -44,6 +46,7 @@ type Opts struct {
 	FuncsPer     int
 	SmallBody    bool
 	NoNestedMain bool
+	NoLookAlikes bool // no packages whose path extends a tracking package path
 	PkgDirNotes  bool // always put the hand-written NOTES.md into internal/cov (a possible tracking package path)
 }
 
@@ -242,6 +245,26 @@ func Generate(r *rand.Rand, o Opts) *Project {
 			_ = k
 		}
 	}
+	// look-alikes of the possible tracking package paths (goat, internal/cov, tools/goat): changed
+	// leaf packages whose import path merely EXTENDS such a path, imported by the first main
+	if !o.NoLookAlikes && r.Intn(2) == 0 {
+		for _, pk := range p.Pkgs {
+			if !pk.IsMain {
+				continue
+			}
+			for _, la := range [][2]string{{"goatherd", "goatherd"}, {"internal/coverage", "coverage"}, {"tools/goatutil", "goatutil"}} {
+				src := func(k int) string {
+					return fmt.Sprintf("package %s\n\n// Look lives in a package whose path extends a tracking package path.\nfunc Look(a, b int) int {\n\ta += %d\n\treturn a + b\n}\n", la[1], k)
+				}
+				p.ExtraOld[la[0]+"/look.go"] = src(1)
+				p.ExtraNew[la[0]+"/look.go"] = src(2)
+				pk.ExtraDirs = append(pk.ExtraDirs, la[0])
+				pk.Files[0].Imports = append(pk.Files[0].Imports, pkgImportPath(la[0]))
+				pk.Files[0].Calls = append(pk.Files[0].Calls, la[1]+".Look")
+			}
+			break
+		}
+	}
 	if o.Decoys {
 		p.addDecoys(r)
 	}
@@ -284,6 +307,24 @@ func (p *Project) addShapes(r *rand.Rand) {
 	if r.Intn(3) == 0 {
 		p.ExtraOld["internal/cov/NOTES.md"] = "notes kept next to the generated file\n"
 		p.ExtraNew["internal/cov/NOTES.md"] = "notes kept next to the generated file\n"
+	}
+	// a file of a main package that sorts before the entry file and only TALKS about func main
+	// (a usage text in a raw string, lines starting with "func main()"): never the entry file
+	if r.Intn(3) == 0 {
+		for _, pk := range p.Pkgs {
+			if pk.IsMain {
+				doc := "package main\n\n// usage is printed by -help.\nconst usage = `example:\n\nfunc main() {\n\trun()\n}\n`\n\nvar _ = usage\n"
+				p.ExtraOld[filepath.Join(pk.Dir, "a_usage.go")] = doc
+				p.ExtraNew[filepath.Join(pk.Dir, "a_usage.go")] = doc
+				break
+			}
+		}
+	}
+	// the user's own dot file in a directory that may be configured as the tracking package path
+	// (tools/goat): the directory is not empty without the generated file and must survive clean
+	if r.Intn(3) == 0 {
+		p.ExtraOld["tools/goat/.gitignore"] = "goat_generated.go\n"
+		p.ExtraNew["tools/goat/.gitignore"] = "goat_generated.go\n"
 	}
 	// a very long line (an embedded asset, > 64 KiB) after the last function of a changed file
 	if r.Intn(4) == 0 {
